@@ -270,10 +270,10 @@ func (r *Reliable) send() {
 				r.sender.senderWindow.state = FastRecovery // will switch to AIMD on the next successful ack
 			}
 
-			if r.sender.RTO > maxRTO && len(r.sender.frames) > 0 {
-				logrus.Errorf("REL: RTO exeeded, dropping frame n° %v", r.sender.frames[0].frameNo)
-				r.sender.frames = r.sender.frames[1:]
-				r.sender.RTO = r.sender.RTT
+			// Bound the back-off. An unacknowledged frame is never discarded: the
+			// receiver would wait for it forever and the stream could not complete.
+			if r.sender.RTO > maxRTO {
+				r.sender.RTO = maxRTO
 			}
 
 			r.sender.resetRetransmitTicker()
